@@ -1,5 +1,6 @@
 import Driver.Util
 import Driver.EvalD
+import Driver.StorageD
 
 /-!
   Line-protocol driver.  One operation per input line, one canonical output line per operation.
@@ -8,13 +9,16 @@ import Driver.EvalD
 namespace Driver
 
 structure State where
-  dummy : Unit := ()
+  storage : StorageD.St := none
 
 def step (st : State) (line : String) : State × String :=
   let line := line.trimAscii.toString
   if line.startsWith "#" then (st, line) else
   match line.splitOn " " with
   | "E" :: args => (st, EvalD.step args)
+  | "S" :: args =>
+    let (s', out) := StorageD.step st.storage args
+    ({ st with storage := s' }, out)
   | _ => (st, "bad-op")
 
 partial def loop (hin : IO.FS.Stream) (hout : IO.FS.Stream) (st : State) : IO Unit := do
